@@ -6,7 +6,10 @@ SPDX-License-Identifier: Apache-2.0
 
 package encoder
 
-import "encoding/base64"
+import (
+	"encoding/base64"
+	"strings"
+)
 
 // EncodeToString encodes the bytes to string.
 func EncodeToString(data []byte) string {
@@ -15,5 +18,10 @@ func EncodeToString(data []byte) string {
 
 // DecodeString decodes the encoded content to Bytes.
 func DecodeString(encodedContent string) ([]byte, error) {
+	// the base64 decoder silently skips line breaks: content with CR or LF in it is not base64url encoded content
+	if pos := strings.IndexAny(encodedContent, "\r\n"); pos >= 0 {
+		return nil, base64.CorruptInputError(pos)
+	}
+
 	return base64.RawURLEncoding.DecodeString(encodedContent)
 }
